@@ -19,7 +19,9 @@ RULE = ("matrix: kind in {string, date, date-time, uuid, integer, number, boolea
         "union[int,bool], any, $ref-to-enum with the default on an allOf wrapper, allOf member overriding a parent's default} "
         "x default value from three pools per kind (valid / lenient = the project's documented conversions / invalid = every "
         "other JSON value incl. wrong type, unlisted enum value, malformed date/uuid, non-finite numbers, containers) x route "
-        "in {model property, query, header, cookie parameter} x both enum styles; quick = the whole fixed matrix, thorough "
+        "in {model property, query, header, cookie parameter} x both enum styles x shape in {written on the schema; written on an "
+        "allOf (and, for models, oneOf) wrapper around a $ref to the schema; enum next to an earlier declaration of the same "
+        "enum class (same derived name and values, another default) in a second location / component}; quick = the whole fixed matrix, thorough "
         "adds Hypothesis-drawn values per cell. Every cell is non-trivial; distinct = the cell tuple.")
 ASSUMPTIONS = [
     "lenient pool = what the project converts on purpose (string spellings of numbers/booleans, numbers/booleans for strings, "
@@ -66,6 +68,8 @@ POOLS = {
 }
 HEADER_KINDS = {"str", "int", "num", "bool", "enum_str", "enum_int"}
 COOKIE_KINDS = {"str", "enum_str", "int", "num", "bool", "date", "uuid"}
+VIA_REF_KINDS = {"str", "date", "datetime", "uuid", "int", "num", "bool", "enum_str", "enum_int"}
+TWIN_DEFAULT = {"enum_str": ["aa", "b b"], "enum_int": [1, -2]}
 PARAM_KINDS = {"str", "date", "datetime", "uuid", "int", "num", "bool", "enum_str", "enum_int", "union", "ref_enum"}
 
 
@@ -83,6 +87,15 @@ def cells():
                         continue
                     for literal in ((False, True) if kind in ("enum_str", "enum_int", "ref_enum") else (False,)):
                         out.append({"kind": kind, "pool": pool, "value": v, "route": route, "literal": literal})
+                        # the same cell with the default written on a wrapper around a $ref to the schema (allOf; oneOf for models)
+                        if kind in VIA_REF_KINDS and route in ("model", "query", "header"):
+                            out.append({"kind": kind, "pool": pool, "value": v, "route": route, "literal": literal, "shape": "via_ref"})
+                            if route == "model" and pool == "valid":
+                                out.append({"kind": kind, "pool": pool, "value": v, "route": route, "literal": literal, "shape": "via_ref_oneof"})
+                        # the same cell next to an earlier declaration of the *same* enum class (same derived name, same values)
+                        # that carries another default
+                        if kind in ("enum_str", "enum_int"):
+                            out.append({"kind": kind, "pool": pool, "value": v, "route": route, "literal": literal, "shape": "twin"})
     return out
 
 
@@ -312,11 +325,31 @@ def run(case, ctx):
         sch, extra = schema_for(kind, v)
         comps = dict(extra)
         paths = {}
+        shape = case.get("shape", "plain")
+        twin_param = None
+        if shape != "plain":
+            site["shape"] = shape
+            ctx.label("shape:" + shape)
+        if shape in ("via_ref", "via_ref_oneof"):
+            target = {k_: v_ for k_, v_ in sch.items() if k_ != "default"}
+            comps["Target"] = target
+            sch = {("oneOf" if shape == "via_ref_oneof" else "allOf"): [{"$ref": "#/components/schemas/Target"}], "default": v}
+        elif shape == "twin":
+            d1 = next(x for x in TWIN_DEFAULT[kind] if not (type(x) is type(v) and x == v))
+            case = dict(case, twin_default=d1)
+            twin_schema = {**{k_: v_ for k_, v_ in sch.items() if k_ != "default"}, "default": d1}
+            if route == "model":
+                comps["HolderPp"] = twin_schema          # the class name an inline enum at Holder.pp derives
+            else:
+                # same wire name in another location (header values of any scalar kind are stringified; cookies are not: C03 finding)
+                other = "header" if route != "header" else "query"
+                twin_param = {"name": "X-Pp" if route == "header" else "pp", "in": other, "schema": twin_schema}
         if route == "model":
             comps["Holder"] = {"type": "object", "properties": {"pp": sch, "other": {"type": "string"}}}
         else:
             name = "X-Pp" if route == "header" else "pp"
-            paths = {"/items": {"get": {"operationId": "fetchThing", "parameters": [{"name": name, "in": route, "schema": sch}],
+            params = ([twin_param] if twin_param else []) + [{"name": name, "in": route, "schema": sch}]
+            paths = {"/items": {"get": {"operationId": "fetchThing", "parameters": params,
                                         "responses": {"200": {"description": "ok"}}}}}
     doc = {"openapi": "3.0.3", "info": {"title": "t", "version": "1"}, "paths": paths, "components": {"schemas": comps}}
     res = sut.generate(doc, cfg={"literal_enums": literal})
@@ -330,7 +363,7 @@ def run(case, ctx):
         if not res.accepted:
             ctx.skip("rejected")
             return
-        ctx.nontrivial([kind, pool, repr(v), route, literal])
+        ctx.nontrivial([kind, pool, repr(v), route, literal, case.get("shape", "plain")])
         diagnosed = bool(res.errors)
         op = {"method": "get", "path": "/items"}
         pkg = None
@@ -351,6 +384,8 @@ def run(case, ctx):
             return
         with pkg:
             present, got = _observe(pkg, res, route, op, ctx)
+            if case.get("shape") == "twin" and present:
+                _check_twin(ctx, site, pkg, res, route, op, kind, case["twin_default"], literal)
             if pool == "valid" or pool == "quote":
                 if diagnosed:
                     ctx.violation("valid.no_diagnostic", site, res.diag_text()[:300])
@@ -378,6 +413,32 @@ def run(case, ctx):
 
 
 _NO = object()
+
+
+def _check_twin(ctx, site, pkg, res, route, op, kind, d1, literal):
+    """The earlier declaration of the same enum class keeps its own default, whatever the later one declares."""
+    if route == "model":
+        # the twin is a component used nowhere else: its default has no Python carrier; only the cell itself is observable
+        return
+    er = locate.find_endpoint(res, op)
+    if er is None:
+        return
+    try:
+        sig = inspect.signature(pkg.mod(er.module).sync_detailed)
+    except BaseException as e:  # noqa: BLE001
+        if behave._is_ctl(e):
+            raise
+        return
+    other = "header" if route != "header" else "query"
+    py = er.pynames.get((other, "X-Pp" if route == "header" else "pp"))
+    if py is None or py not in sig.parameters:
+        ctx.violation("twin.present", site, f"the {other} parameter pp is missing")
+        return
+    d = sig.parameters[py].default
+    if d is inspect.Parameter.empty or d is pkg.types.UNSET:
+        ctx.violation("twin.keeps_own_default", site, f"declared {d1!r}, Python default absent")
+    elif not json_eq(value_json(d), d1):
+        ctx.violation("twin.keeps_own_default", site, f"declared {d1!r}, got {d!r}")
 
 
 def _observe(pkg, res, route, op, ctx):
